@@ -314,7 +314,23 @@ func c12Default(c *vrep.Ctx) {
 	if err := ld.LoadLicenses(repoRoot() + "/v2/assets"); err != nil {
 		panic(err)
 	}
-	c.R.Rule = "DefaultClassifier() vs NewClassifier(0.8)+LoadLicenses(/repo/v2/assets): every corpus file planted between unrelated lines, every scenario file and a few unrelated texts must give identical Results (names, variants, confidences, spans, order); non-trivial = inputs with a match"
+	// histories: whatever a caller did to one DefaultClassifier() - extended its corpus, matched,
+	// normalized, installed a trace configuration - the NEXT DefaultClassifier() is again equivalent
+	// to LoadLicenses(assets) (variant = which classifier the comparison below uses)
+	zorblatt := []byte("zorblatt frobnicate quuxly the software may be snarfed by any wombat provided that the gribble notice stays intact")
+	first := def
+	first.AddContent("License", "Zorblatt-1.0", "license.txt", zorblatt)
+	first.Match(zorblatt)
+	first.Normalize([]byte("Unseen Words Gribblefrotz"))
+	first.SetTraceConfiguration(&classifier.TraceConfiguration{TraceLicenses: "*", TracePhases: "*", Tracer: func(string, ...interface{}) {}})
+	def, err = assets.DefaultClassifier()
+	if err != nil {
+		panic(err)
+	}
+	if got := render0(def.Match(zorblatt)); strings.Contains(got, "Zorblatt") {
+		c.Violate("c12_default:history:AddContent", "a document added to one DefaultClassifier() is known to the next DefaultClassifier(): "+got, nil, got)
+	}
+	c.R.Rule = "a first DefaultClassifier() is extended (AddContent), used (Match, Normalize) and given a trace configuration; the NEXT DefaultClassifier() must not know the added document and is compared below; DefaultClassifier() vs NewClassifier(0.8)+LoadLicenses(/repo/v2/assets): every corpus file planted between unrelated lines, every scenario file and a few unrelated texts must give identical Results (names, variants, confidences, spans, order); non-trivial = inputs with a match"
 	var files []string
 	filepath.Walk(repoRoot()+"/v2/assets", func(p string, info os.FileInfo, err error) error {
 		if err == nil && !info.IsDir() && strings.HasSuffix(p, ".txt") {
@@ -355,6 +371,14 @@ func c12Default(c *vrep.Ctx) {
 	})
 }
 
+
+func render0(r classifier.Results) string {
+	var sb strings.Builder
+	for _, m := range r.Matches {
+		fmt.Fprintf(&sb, "|%s/%s/%s %v", m.MatchType, m.Name, m.Variant, m.Confidence)
+	}
+	return sb.String()
+}
 
 // utf8Replaced replaces every byte that is not part of a valid UTF-8 sequence by U+FFFD, one
 // replacement per byte (what encoding/json does when it marshals a string).
